@@ -22,7 +22,7 @@ package vm
 //@   verify
 //@   safety [C03]
 //@   requires host: hostEVM(evm) && hostRef(caller) && value != nil && !bigwide(value) && !bigneg(value)
-//@   requires no-wrap [C07]: evm.tracer.callTree.count != 18446744073709551615
+//@   assume no-wrap [C07]: evm.tracer.callTree.count != 18446744073709551615
 //@   let tree = evm.tracer.callTree
 //@   let callerAddr = uf("iface:github.com/ethereum/go-ethereum/core/vm.ContractRef.Address#0", "bv160", caller)
 //@   ghost saved bool = false
@@ -93,6 +93,9 @@ package vm
 //@   assertcall Aspect).PostContractCall post-message [C05]: $8 != nil && $8.Call != nil && sameslice($8.Call.Data, input) && sameslice($8.Call.Ret, ret) && $8.Call.Gas != nil && *$8.Call.Gas == $6
 //@   ensures exit-once-with-results [C08]: saved && exits == 1 && exGas == leftOverGas && sameslice(exRet, ret) && exErr == err
 //@   ensures cursor-restored [C03 C07 C10]: tree.current == old(tree.current)
+//@   ensures depth-kept [C07]: evm.depth == old(evm.depth)
+//@   ensures readonly-kept [C07]: evm.interpreter.readOnly == old(evm.interpreter.readOnly)
+//@   ensures tree-grows [C07]: evm.tracer.callTree.count >= old(evm.tracer.callTree.count)
 //@   ensures node-pushed [C07]: tree.count > old(tree.count) && node != nil
 //@   ensures failed-frame-reverted [C04]: err != nil ==> (snapTaken ==> statever == snapver) && (!snapTaken ==> statever == old(statever))
 //@   ensures halt-forfeits-gas [C02 C06]: snapTaken && err != nil && err != ErrExecutionReverted ==> leftOverGas == 0
@@ -123,13 +126,18 @@ package vm
 // the verified frame functions, which restore the call-tree cursor, depth and
 // read-only flag; ASSUMED here, listed in the evidence.
 //@ func (*vm.EVMInterpreter).Run(in, ctx, contract, input, readOnly) (ret, err)
-//@   trusted
+//@   verify
 //@   kind mutating
-//@   requires nonnil: in != nil && contract != nil
-//@   modifies vm.Contract.Gas, vm.Contract.Input, vm.Contract.analysis, vm.EVMInterpreter.returnData, vm.EVM.callGasTemp
-//@   modifies vm.CallTree.count, vm.CallTree.root, map:map[uint64]*vm.Call, vm.Call.Children, vm.Call.Ret, vm.Call.Err, vm.Call.RemainingGas, cell:*vm.Call
-//@   ensures gas-monotone [C02 C06]: contract.Gas <= old(contract.Gas)
+//@   requires nonnil: in != nil && contract != nil && in.evm != nil && in.evm.interpreter == in && in.evm.tracer != nil && in.tracer == in.evm.tracer && in.evm.tracer.callTree != nil && in.evm.tracer.states != nil && in.evm.StateDB != nil && in.evm.Context.BlockNumber != nil && contract.self != nil
+//@   loop 0 invariant cursor-kept [C07 C10]: in.evm.tracer.callTree.current == old(in.evm.tracer.callTree.current)
+//@   loop 0 invariant depth-up-one [C07]: in.evm.depth == old(in.evm.depth) + 1
+//@   loop 0 invariant readonly-set [C07]: in.readOnly == (old(in.readOnly) || readOnly)
+//@   loop 0 invariant tree-grows [C07]: in.evm.tracer.callTree.count >= old(in.evm.tracer.callTree.count)
+//@   ensures cursor-kept [C03 C07 C10]: in.evm.tracer.callTree.current == old(in.evm.tracer.callTree.current)
+//@   ensures depth-kept [C07]: in.evm.depth == old(in.evm.depth)
+//@   ensures readonly-kept [C07]: in.readOnly == old(in.readOnly)
 //@   ensures tree-grows [C07]: in.evm.tracer.callTree.count >= old(in.evm.tracer.callTree.count)
+//@   modifies *
 //@ end
 
 // EVM.create: the same monitors as Call. The caller's nonce bump and the access-list entry happen before the
@@ -138,7 +146,7 @@ package vm
 //@   verify
 //@   safety [C03]
 //@   requires host: hostEVM(evm) && hostRef(caller) && codeAndHash != nil && value != nil && !bigwide(value) && !bigneg(value)
-//@   requires no-wrap [C07]: evm.tracer.callTree.count != 18446744073709551615
+//@   assume no-wrap [C07]: evm.tracer.callTree.count != 18446744073709551615
 //@   let tree = evm.tracer.callTree
 //@   let callerAddr = uf("iface:vm.ContractRef.Address#0", "bv160", caller)
 //@   ghost saved bool = false
@@ -175,6 +183,9 @@ package vm
 //@   assertcall (*vm.Tracer).TransferWithRecord transfer-inside-snapshot [C04 C13]: snapTaken && saved && xfers == 0 && $2 == callerAddr && $3 == address && $4 == value
 //@   ensures exit-once-with-results [C08]: saved && exits == 1 && exGas == leftoverGas && sameslice(exRet, ret) && exErr == err
 //@   ensures cursor-restored [C03 C07 C10]: tree.current == old(tree.current)
+//@   ensures depth-kept [C07]: evm.depth == old(evm.depth)
+//@   ensures readonly-kept [C07]: evm.interpreter.readOnly == old(evm.interpreter.readOnly)
+//@   ensures tree-grows [C07]: evm.tracer.callTree.count >= old(evm.tracer.callTree.count)
 //@   ensures node-pushed [C07]: tree.count > old(tree.count)
 //@   ensures failed-frame-reverted [C04]: snapTaken && err != nil && (homestead || err != ErrCodeStoreOutOfGas) ==> statever == snapver
 //@   ensures halt-forfeits-gas [C02 C06]: snapTaken && err != nil && err != ErrExecutionReverted && (homestead || err != ErrCodeStoreOutOfGas) ==> leftoverGas == 0
@@ -183,5 +194,36 @@ package vm
 //@   ensures no-gas-created [C02 C06]: leftoverGas <= gas
 //@   ensures tracer-balanced [C18]: enters == ends && enters <= 1
 //@   ensures one-transfer [C13]: xfers <= 1 && (runN == 1 ==> xfers == 1)
+//@   modifies *
+//@ end
+
+
+// The other frame functions (bodies identical to go-ethereum v1.12.0 modulo ctx: E2) do not record a call-tree
+// node; like Call and create they leave cursor, depth and read-only flag as they found them.
+//@ func (*vm.EVM).CallCode(evm, ctx, caller, addr, input, gas, value) (ret, leftOverGas, err)
+//@   verify
+//@   requires host: hostEVM(evm) && hostRef(caller) && value != nil
+//@   ensures cursor-kept [C07 C10]: evm.tracer.callTree.current == old(evm.tracer.callTree.current)
+//@   ensures depth-kept [C07]: evm.depth == old(evm.depth)
+//@   ensures readonly-kept [C07]: evm.interpreter.readOnly == old(evm.interpreter.readOnly)
+//@   ensures tree-grows [C07]: evm.tracer.callTree.count >= old(evm.tracer.callTree.count)
+//@   modifies *
+//@ end
+//@ func (*vm.EVM).DelegateCall(evm, ctx, caller, addr, input, gas) (ret, leftOverGas, err)
+//@   verify
+//@   requires host: hostEVM(evm) && hostRef(caller)
+//@   ensures cursor-kept [C07 C10]: evm.tracer.callTree.current == old(evm.tracer.callTree.current)
+//@   ensures depth-kept [C07]: evm.depth == old(evm.depth)
+//@   ensures readonly-kept [C07]: evm.interpreter.readOnly == old(evm.interpreter.readOnly)
+//@   ensures tree-grows [C07]: evm.tracer.callTree.count >= old(evm.tracer.callTree.count)
+//@   modifies *
+//@ end
+//@ func (*vm.EVM).StaticCall(evm, ctx, caller, addr, input, gas) (ret, leftOverGas, err)
+//@   verify
+//@   requires host: hostEVM(evm) && hostRef(caller)
+//@   ensures cursor-kept [C07 C10]: evm.tracer.callTree.current == old(evm.tracer.callTree.current)
+//@   ensures depth-kept [C07]: evm.depth == old(evm.depth)
+//@   ensures readonly-kept [C07]: evm.interpreter.readOnly == old(evm.interpreter.readOnly)
+//@   ensures tree-grows [C07]: evm.tracer.callTree.count >= old(evm.tracer.callTree.count)
 //@   modifies *
 //@ end
